@@ -168,6 +168,49 @@ def rrel_forms_scenario():
     return problems
 
 
+def grammar_rrel_flags_scenario():
+    """two RREL expressions in one grammar, one with the multi-file flag '+m:' and one without: each keeps its
+    own flags, in either rule order (as two registered strings do)"""
+    import os
+    import shutil
+    import tempfile
+    from textx import metamodel_from_str
+    from textx.exceptions import TextXSemanticError
+    rules = ["Use: 'use' ref=[Item:ID|+m:items];", "Local: 'local' ref=[Item:ID|items];"]
+    problems = []
+    tmp = tempfile.mkdtemp(prefix='c32f_')
+    try:
+        with open(os.path.join(tmp, 'lib.m'), 'w') as f:
+            f.write('item l1')
+        for order in (rules, rules[::-1]):
+            for registered in (False, True):
+                g = ("Model: imports*=Import items*=Item uses*=Use locals*=Local;\nImport: 'import' importURI=STRING;\n"
+                     "Item: 'item' name=ID;\n" + '\n'.join(order))
+                if registered:
+                    g = g.replace('|+m:items', '').replace('|items', '')
+                what = '%s first, %s' % (order[0].split(':')[0], 'registered strings' if registered else 'grammar RRELs')
+                for text, want in (('import "lib.m" item m1 use l1 local m1', 'ok'), ('import "lib.m" item m1 use m1 local l1', 'Unknown object')):
+                    mm = metamodel_from_str(g)
+                    if registered:
+                        mm.register_scope_providers({'Use.ref': '+m:items', 'Local.ref': 'items'})
+                    with open(os.path.join(tmp, 'main.m'), 'w') as f:
+                        f.write(text)
+                    try:
+                        m = mm.model_from_file(os.path.join(tmp, 'main.m'))
+                        got = 'ok'
+                        if want == 'ok' and (m.uses[0].ref.name != 'l1' or m.locals[0].ref is not m.items[0]):
+                            got = 'wrong targets'
+                    except TextXSemanticError as e:
+                        got = 'Unknown object' if 'Unknown object' in str(e) else str(e)[:60]
+                    except Exception as e:  # noqa
+                        got = '%s: %s' % (type(e).__name__, str(e)[:60])
+                    if got != want:
+                        problems.append("%s: %r gives %s, expected %s" % (what, text, got, want))
+        return problems
+    finally:
+        shutil.rmtree(tmp, ignore_errors=True)
+
+
 def explore(item):
     grammar_rrel, = item
     ctx = Ctx(10000, max_paths=100000, free_selectors=True)
@@ -214,6 +257,9 @@ def main():
         chk.sample({'grammar_rrel': r['grammar_rrel'], 'configurations': r['paths'], 'wrong': r['nbad']})
     for pr in rrel_forms_scenario()[:3]:
         chk.violation(pr, {'rrel_forms': True})
+    for pr in grammar_rrel_flags_scenario()[:3]:
+        chk.violation(pr, {'rrel_flags': True})
+    paths += 8
     paths += len(F_EXPRS)
     chk.cov['bounds']['rrel_forms'] = 'grammar form vs registered string for %d expressions with fixed names (quotes, backslashes)' % len(F_EXPRS)
     chk.cov['paths_explored'] = paths
@@ -224,6 +270,9 @@ def main():
 
 
 def replay(data):
+    if data.get('rrel_flags'):
+        pr = grammar_rrel_flags_scenario()
+        return bool(pr), pr[:3]
     if data.get('rrel_forms'):
         pr = rrel_forms_scenario()
         return bool(pr), pr[:3]
